@@ -115,8 +115,8 @@ def main():
         "version": 1,
         "setup_cmd": "cd /verif && CARGO_NET_OFFLINE=true CARGO_TARGET_DIR=/verif/target cargo build --offline --release --manifest-path harness/Cargo.toml && (cd harness && MIRIFLAGS='-Zmiri-disable-isolation -Zmiri-permissive-provenance' CARGO_NET_OFFLINE=true CARGO_TARGET_DIR=/verif/target-miri cargo +nightly miri run --offline -- NOP)",
         "hooks": {
-            "guard": "cargo feature `verif` (declared in markup5ever, html5ever, xml5ever; off by default)",
-            "enable": "the harness crate depends on html5ever/xml5ever/markup5ever by path with features=[\"verif\"]",
+            "guard": "cargo feature `verif` (declared in markup5ever, html5ever, xml5ever and tendril; off by default)",
+            "enable": "the harness crate depends on html5ever/xml5ever/markup5ever/tendril by path with features=[\"verif\"]",
             "baseline_off_cmd": "cd /repo && cargo test --workspace --no-fail-fast --offline",
             "source_commits": hook_commits(),
             "add_only": True,
